@@ -131,11 +131,12 @@ def array_binop(op, a, b):
 
 
 def _pytype(x):
+    """a representative python scalar (NEP 50 weak promotion needs the value, not the type)"""
     if isinstance(x, SV):
-        return bool if x.is_bool else int if x.is_int else float
+        return False if x.is_bool else 0 if x.is_int else 0.0
     if is_z3(x):
-        return bool if z3.is_bool(x) else int if z3.is_int(x) else float
-    return type(x)
+        return False if z3.is_bool(x) else 0 if z3.is_int(x) else 0.0
+    return type(x)(0) if isinstance(x, (bool, int, float)) else x
 
 
 def unop(op, a):
